@@ -66,6 +66,8 @@ pub enum Op {
     Aggregate(usize),
     /// the text fact F.c becomes one of four strings that differ in blanks only
     SetText(usize),
+    /// the number fact F.n becomes the integer 5, the float 5.0, the string "5" or the integer 6
+    SetNum(u8),
     /// set_config: 0 = DFS, 1 = BFS, 2 = DFS with max_solutions 3 (same max_depth throughout)
     SetConfig(u8),
     /// one GRL query text executed through GRLQueryExecutor::execute (it configures the engine itself)
@@ -121,6 +123,13 @@ fn kb_named(name: &str, prog: &[HRule]) -> KnowledgeBase {
         kb.add_rule(Rule::new(
             "Text".to_string(),
             ConditionGroup::single(Condition::new("F.c".to_string(), Operator::Equal, Value::String(TEXTS[0].to_string()))),
+            vec![ActionType::Set { field: format!("F.{}", FIELDS[A]), value: Value::Boolean(true) }],
+        ))
+        .unwrap();
+        // and a rule conditioned on a number: F.n == 5 (integer literal) -> F.a = true
+        kb.add_rule(Rule::new(
+            "Num".to_string(),
+            ConditionGroup::single(Condition::new("F.n".to_string(), Operator::Equal, Value::Integer(5))),
             vec![ActionType::Set { field: format!("F.{}", FIELDS[A]), value: Value::Boolean(true) }],
         ))
         .unwrap();
@@ -212,6 +221,9 @@ impl System for Sys {
             for t in 0..TEXTS.len() {
                 v.push(Op::SetText(t));
             }
+            for k in 0..4u8 {
+                v.push(Op::SetNum(k));
+            }
             return v;
         }
         if self.alphabet == 2 {
@@ -290,6 +302,17 @@ impl System for Sys {
                 self.facts.set("F.c", Value::String(TEXTS[*t].to_string()));
                 self.changed();
                 Ok(8)
+            }
+            Op::SetNum(k) => {
+                let v = match k {
+                    0 => Value::Integer(5),
+                    1 => Value::Number(5.0),
+                    2 => Value::String("5".to_string()),
+                    _ => Value::Integer(6),
+                };
+                self.facts.set("F.n", v);
+                self.changed();
+                Ok(9)
             }
             Op::FreshNested(m) => {
                 self.facts = store_nested(*m);
@@ -407,6 +430,7 @@ impl System for Sys {
             Op::SetLeafString(_) => "change_fact_type",
             Op::FreshNested(_) => "fresh_nested_facts",
             Op::SetText(_) => "set_text_fact",
+            Op::SetNum(_) => "set_number_fact",
             Op::Aggregate(_) => "aggregate_query",
             Op::SetConfig(_) => "set_config",
             Op::GrlQuery(_) => "grl_query",
@@ -442,7 +466,7 @@ pub fn run(opts: &Opts) -> Vec<Report> {
             total.merge(explore::explore(&move || Sys::with_alphabet(p, with_rete, maxq, alphabet), &cfg));
         }
         let expected: &[&str] = match alphabet {
-            1 => &["query", "assert_fact", "change_fact_type", "remove_fact", "fresh_facts", "fresh_nested_facts", "set_text_fact"],
+            1 => &["query", "assert_fact", "change_fact_type", "remove_fact", "fresh_facts", "fresh_nested_facts", "set_text_fact", "set_number_fact"],
             2 => &["query", "aggregate_query", "assert_fact", "fresh_facts"],
             3 => &["query", "set_config", "assert_fact", "fresh_facts"],
             4 => &["grl_query", "fresh_facts"],
@@ -454,7 +478,7 @@ pub fn run(opts: &Opts) -> Vec<Report> {
             }
         }
         total.bound = match alphabet {
-            1 => format!("13 programs x all histories of length <= {} over query(2 goals) / leaf = true / leaf = the string \"true\" / remove leaf / flat empty store / one object fact F holding any subset of the leaves / a text fact set to one of four strings that differ in blanks only (a 13th program has a rule conditioned on that text); default configuration (memoisation on)", depth),
+            1 => format!("13 programs x all histories of length <= {} over query(2 goals) / leaf = true / leaf = the string \"true\" / remove leaf / flat empty store / one object fact F holding any subset of the leaves / a text fact set to one of four strings that differ in blanks only / a number fact set to 5, 5.0, the string 5 or 6 (a 13th program has rules conditioned on that text and on `F.n == 5`); default configuration (memoisation on)", depth),
             3 => format!("13 programs x all histories of length <= {} over query(2 goals) / set_config(DFS | BFS | DFS with max_solutions 3) / assert a leaf / empty store; the fresh engine is built with the configuration last asked for", depth),
             4 => format!("program two_ways x all histories of length <= {} over 4 GRL query texts (max-depth 5|10 x max-solutions 1|3) through GRLQueryExecutor::execute / store with both leaves; verdict and number of solutions vs a fresh engine", depth),
             2 => format!("13 programs x all histories of length <= {} over query(3 goals + a NOT goal) / query_aggregate(pattern that can match, matches nothing, does not parse) / assert a leaf / empty store; default configuration", depth),
